@@ -1224,3 +1224,35 @@ pub fn loopgood_stutter_none_arm_leaves(src: &mut TwoSources) -> Option<u8> {
         }
     }
 }
+
+// ---- `Err(e)?;` as an early return: the value built as Err cannot take the Continue arm of `?` -------------------------
+
+pub fn good_mul_after_err_question(index: usize, count: u32, size: u8) -> Result<usize, ()> {
+    if index > count as usize {
+        Err(())?;
+    }
+    Ok(index * size as usize)
+}
+
+pub fn good_mul_after_none_question(index: usize, count: u32, size: u8) -> Option<usize> {
+    if index > count as usize {
+        None?;
+    }
+    Some(index * size as usize)
+}
+
+// `Ok(())?` does not leave: the test bounds nothing
+pub fn bad_mul_after_ok_question(index: usize, count: u32, size: u8) -> Result<usize, ()> {
+    if index > count as usize {
+        Ok::<(), ()>(())?;
+    }
+    Ok(index * size as usize)
+}
+
+// the tested result is not a constant variant
+pub fn bad_mul_after_unknown_question(index: usize, count: u32, size: u8, r: Result<(), ()>) -> Result<usize, ()> {
+    if index > count as usize {
+        r?;
+    }
+    Ok(index * size as usize)
+}
